@@ -3,8 +3,13 @@
 
 Each change is applied to a scratch copy of /repo/src (outside /repo and /verif,
 removed afterwards) and the engine is pointed at it with ASPIRE_REPO, so /repo is
-never touched.  Writes /verif/seeded/RESULTS.md.  Development helper, not a check.
+never touched; evidence of these runs goes to a scratch directory
+(ASPIRE_SA_EVIDENCE_DIR).  Writes /verif/seeded/RESULTS.md when run without
+arguments.  Development helper, not a check.
+
+usage: run_seeded.py [-j N] [--first-contact] [<seed id> ...]
 """
+import concurrent.futures as cf
 import json
 import os
 import shutil
@@ -17,9 +22,9 @@ SEEDED = os.path.join(VERIF, "seeded")
 PROPS = [f"C{i:02d}" for i in range(2, 21)]
 
 
-def run_checks(root, props):
+def run_checks(root, props, evdir):
     out = {}
-    env = dict(os.environ, ASPIRE_REPO=root, PYTHONDONTWRITEBYTECODE="1")
+    env = dict(os.environ, ASPIRE_REPO=root, PYTHONDONTWRITEBYTECODE="1", ASPIRE_SA_EVIDENCE_DIR=evdir)
     for p in props:
         r = subprocess.run(["/venv/bin/python", "-m", "aspire_sa", "check", p, "--no-controls"], cwd=VERIF, env=env,
                            capture_output=True, text=True)
@@ -28,53 +33,62 @@ def run_checks(root, props):
     return out
 
 
-def main():
-    only = sys.argv[1:]
-    rows = []
-    saved_evidence = tempfile.mkdtemp(prefix="evid_")
-    ev_dir = os.path.join(VERIF, "evidence")
-    for f in os.listdir(ev_dir):
-        if f.endswith(".json"):
-            shutil.copy(os.path.join(ev_dir, f), saved_evidence)
+def one(sid):
+    d = os.path.join(SEEDED, sid)
+    patch = os.path.join(d, "patch.diff")
+    meta = json.load(open(os.path.join(d, "meta.json")))
+    tmp = tempfile.mkdtemp(prefix="seedrun_")
     try:
-        for sid in sorted(os.listdir(SEEDED)):
-            d = os.path.join(SEEDED, sid)
-            patch = os.path.join(d, "patch.diff")
-            if not os.path.isfile(patch) or (only and sid not in only):
-                continue
-            meta = json.load(open(os.path.join(d, "meta.json")))
-            tmp = tempfile.mkdtemp(prefix="seedrun_")
-            try:
-                shutil.copytree("/repo/src", os.path.join(tmp, "src"))
-                r = subprocess.run(["patch", "-p1", "-s", "-i", patch], cwd=tmp, capture_output=True, text=True)
-                if r.returncode != 0:
-                    rows.append((sid, meta["property"], "PATCH DOES NOT APPLY", "", ""))
-                    continue
-                res = run_checks(tmp, PROPS)
-            finally:
-                shutil.rmtree(tmp, ignore_errors=True)
-            hits = {p: v for p, (rc, v, e) in res.items() if rc == 1}
-            errs = {p: e for p, (rc, v, e) in res.items() if rc == 2}
-            target = meta["property"]
-            status = "DETECTED" if target in hits else ("detected by other property" if hits else ("ANALYSIS-ERROR only" if errs else "MISSED"))
-            first = hits.get(target, next(iter(hits.values()), [""]))
-            rows.append((sid, target, status, ", ".join(sorted(hits)), (first[0].strip()[:220] if first else "")))
-            print(sid, target, status, sorted(hits), sorted(errs))
+        shutil.copytree("/repo/src", os.path.join(tmp, "src"))
+        r = subprocess.run(["patch", "-p1", "-s", "-i", patch], cwd=tmp, capture_output=True, text=True)
+        if r.returncode != 0:
+            return (sid, meta["property"], "PATCH DOES NOT APPLY", "", ""), {}, {}
+        res = run_checks(tmp, PROPS, os.path.join(tmp, "evidence"))
     finally:
-        for f in os.listdir(saved_evidence):
-            shutil.copy(os.path.join(saved_evidence, f), ev_dir)
-        shutil.rmtree(saved_evidence, ignore_errors=True)
-        shutil.rmtree(os.path.join(ev_dir, "replay"), ignore_errors=True)
-    with open(os.path.join(SEEDED, "RESULTS.md"), "w") as f:
-        f.write("# Seeded changes vs checks\n\nEach change was written by an independent agent that saw only the property text and a scratch worktree.\n"
-                "Applied to a scratch copy of /repo/src; every quick check C02-C20 was run against it (`tools/run_seeded.py`).\n\n")
-        f.write("| seeded change | breaks | result | checks reporting VIOLATION | first report |\n|---|---|---|---|---|\n")
-        for r in rows:
-            f.write("| " + " | ".join(str(x).replace("|", "\\|") for x in r) + " |\n")
-        n = len(rows)
-        det = sum(1 for r in rows if r[2] == "DETECTED")
-        oth = sum(1 for r in rows if r[2] == "detected by other property")
-        f.write(f"\n{det} of {n} detected by the check of the property they break, {oth} by another property's check only, {n - det - oth} not reported.\n")
+        shutil.rmtree(tmp, ignore_errors=True)
+    hits = {p: v for p, (rc, v, e) in res.items() if rc == 1}
+    errs = {p: e for p, (rc, v, e) in res.items() if rc == 2}
+    target = meta["property"]
+    status = "DETECTED" if target in hits else ("detected by other property" if hits else ("ANALYSIS-ERROR only" if errs else "MISSED"))
+    first = hits.get(target, next(iter(hits.values()), [""]))
+    return (sid, target, status, ", ".join(sorted(hits)), (first[0].strip()[:220] if first else "")), hits, errs
+
+
+def main():
+    args = sys.argv[1:]
+    jobs = 8
+    if "-j" in args:
+        i = args.index("-j")
+        jobs = int(args[i + 1])
+        del args[i:i + 2]
+    verbose = "-v" in args
+    args = [a for a in args if a != "-v"]
+    only = args
+    sids = [s for s in sorted(os.listdir(SEEDED))
+            if os.path.isfile(os.path.join(SEEDED, s, "patch.diff")) and (not only or s in only)]
+    rows = []
+    with cf.ThreadPoolExecutor(max_workers=jobs) as ex:
+        for row, hits, errs in ex.map(one, sids):
+            rows.append(row)
+            print(row[0], row[1], row[2], sorted(hits), sorted(errs), flush=True)
+            if verbose:
+                for p, v in hits.items():
+                    for l in v[:6]:
+                        print("     ", p, l.strip()[:400])
+                for p, e in errs.items():
+                    for l in e[:3]:
+                        print("     ", p, l.strip()[:400])
+    if not only:
+        with open(os.path.join(SEEDED, "RESULTS.md"), "w") as f:
+            f.write("# Seeded changes vs checks\n\nEach change was written by an independent agent that saw only the property text and a scratch worktree.\n"
+                    "Applied to a scratch copy of /repo/src; every quick check C02-C20 was run against it (`tools/run_seeded.py`).\n\n")
+            f.write("| seeded change | breaks | result | checks reporting VIOLATION | first report |\n|---|---|---|---|---|\n")
+            for r in rows:
+                f.write("| " + " | ".join(str(x).replace("|", "\\|") for x in r) + " |\n")
+            n = len(rows)
+            det = sum(1 for r in rows if r[2] == "DETECTED")
+            oth = sum(1 for r in rows if r[2] == "detected by other property")
+            f.write(f"\n{det} of {n} detected by the check of the property they break, {oth} by another property's check only, {n - det - oth} not reported.\n")
     print(f"{len(rows)} seeded changes")
 
 
